@@ -6,7 +6,7 @@ for prop in $(ls seeded | sed 's/-[0-9]*$//' | sort -u); do
   for d in seeded/$prop-*; do
     [ -f $d/confirm.log ] && continue
     [ -d /tmp/seed/$prop ] || continue
-    tools/confirm_seed.sh $d /tmp/seed/$prop > $d/confirm.log.tmp 2>&1
+    tools/confirm_seed.sh /verif/$d /tmp/seed/$prop > $d/confirm.log.tmp 2>&1
     mv $d/confirm.log.tmp $d/confirm.log
   done
   ) &
